@@ -27,6 +27,9 @@ VENDOR = os.path.join(ROOT, ".vendor")
 if os.path.isdir(VENDOR):
     sys.path.append(VENDOR)
 
+if os.environ.get("VERIF_REPO_SRC"):      # development aid: run against a scratch worktree's src directory
+    sys.path.insert(0, os.environ["VERIF_REPO_SRC"])
+
 from mc import engine  # noqa: E402
 
 SCHEMA = "/root/.vp/EVIDENCE.schema.json"
@@ -34,12 +37,16 @@ SCHEMA_COPY = os.path.join(ROOT, "mc", "EVIDENCE.schema.json")
 
 
 def load_findings(prop):
-    path = os.path.join(ROOT, "known_findings.json")
-    if not os.path.exists(path):
-        return []
-    with open(path) as f:
-        data = json.load(f)
-    return [x for x in data.get("findings", []) if x.get("property") == prop and x.get("status") == "finding"]
+    import glob
+    out = []
+    paths = [os.path.join(ROOT, "known_findings.json")] + sorted(glob.glob(os.path.join(ROOT, "known_findings.d", "*.json")))
+    for path in paths:
+        if not os.path.exists(path):
+            continue
+        with open(path) as f:
+            data = json.load(f)
+        out += [x for x in data.get("findings", []) if x.get("property") == prop and x.get("status") == "finding"]
+    return out
 
 
 def matches(pattern: dict, signature: dict) -> bool:
